@@ -160,20 +160,21 @@ Print Assumptions C03_readonly_identity.
 
 (* ---- saving: untouched elements are re-emitted as they were ---- *)
 
-(* the assembler used here, with the repair switched off, is the shared model's (Ffs.asm) *)
-Theorem C03_asm_pinned_is_ffs : forall enc s2u elems len st,
-  asm_bios_v enc s2u false elems len st = asm_bios enc s2u elems len st.
-Proof. exact asm_bios_v_false_lemma. Qed.
-Print Assumptions C03_asm_pinned_is_ffs.
+(* the code before the empty-volume repair differs from the shared model's volume case only on an
+   empty file list *)
+Theorem C03_asm_pinned_nonempty : forall pol ffs3 h buf f r,
+  asm_vol_pinned pol ffs3 h buf (f :: r) = asm_vol pol ffs3 h buf (f :: r).
+Proof. exact asm_vol_pinned_nonempty. Qed.
+Print Assumptions C03_asm_pinned_nonempty.
 
 (* the bytes of the saved region outside the edited element are those of the unedited save *)
-Theorem C03_outside_untouched : forall enc s2u fx l1 x x' l2 len pol ffs3 r r',
+Theorem C03_outside_untouched : forall enc s2u l1 x x' l2 len pol ffs3 r r',
   pol <> 240 -> is_voln x = true -> is_voln x' = true ->
-  asm_bios_v enc s2u fx (l1 ++ x :: l2) len (pol, ffs3) = Ok r ->
-  asm_bios_v enc s2u fx (l1 ++ x' :: l2) len (pol, ffs3) = Ok r' ->
-  zlen (node_buf (asm_at enc s2u fx l1 x (pol, ffs3))) = zlen (node_buf (asm_at enc s2u fx l1 x' (pol, ffs3))) ->
+  asm_bios enc s2u (l1 ++ x :: l2) len (pol, ffs3) = Ok r ->
+  asm_bios enc s2u (l1 ++ x' :: l2) len (pol, ffs3) = Ok r' ->
+  zlen (node_buf (asm_at enc s2u l1 x (pol, ffs3))) = zlen (node_buf (asm_at enc s2u l1 x' (pol, ffs3))) ->
   let lo := elems_len (fst (fst r)) (length l1) in
-  let hi := lo + zlen (node_buf (asm_at enc s2u fx l1 x (pol, ffs3))) in
+  let hi := lo + zlen (node_buf (asm_at enc s2u l1 x (pol, ffs3))) in
   forall i, (0 <= i < lo \/ hi <= i) -> nth_error (snd (fst r)) (Z.to_nat i) = nth_error (snd (fst r')) (Z.to_nat i).
 Proof. exact outside_untouched_lemma. Qed.
 Print Assumptions C03_outside_untouched.
@@ -181,14 +182,14 @@ Print Assumptions C03_outside_untouched.
 (* DESIGN section 6 #20: the pinned Assemble returns the stale buffer of a volume whose file list
    became empty (the removed file is still in the saved bytes) ... *)
 Theorem C03_emptied_volume_pinned_refuted : forall pol ffs3 h buf,
-  asm_vol_v false pol ffs3 h buf [] = Ok (h, buf).
+  asm_vol_pinned pol ffs3 h buf [] = Ok (h, buf).
 Proof. exact asm_vol_empty_asis. Qed.
 Print Assumptions C03_emptied_volume_pinned_refuted.
 
 (* ... the repaired one rebuilds it: the header, then erased bytes only *)
 Theorem C03_emptied_volume_rebuilt : forall pol ffs3 h buf h' b,
   supported_fv (v_guid h) = true -> v_resizable h = false -> 60 <= v_dataoff h ->
-  asm_vol_v true pol ffs3 h buf [] = Ok (h', b) ->
+  asm_vol pol ffs3 h buf [] = Ok (h', b) ->
   zlen b = v_length h /\ v_length h' = v_length h /\
   zskipn (v_dataoff h) b = zrepeat pol (v_length h - v_dataoff h).
 Proof. exact asm_vol_empty_fixed. Qed.
@@ -204,17 +205,18 @@ Definition id_bytes (b : bytes) : bytes := b.
 Definition tiny_image : bytes := [0; 0; 0; 0; 0; 0; 0; 0; 0; 0; 0; 0; 0; 0; 0; 0; 120; 229; 140; 140; 61; 138; 28; 79; 153; 53; 137; 97; 133; 195; 45; 211; 192; 0; 0; 0; 0; 0; 0; 0; 95; 70; 86; 72; 0; 8; 0; 0; 72; 0; 207; 236; 0; 0; 0; 2; 3; 0; 0; 0; 64; 0; 0; 0; 0; 0; 0; 0; 0; 0; 0; 0; 1; 0; 0; 0; 0; 171; 0; 0; 0; 0; 0; 0; 0; 0; 0; 119; 1; 170; 192; 0; 28; 0; 0; 248; 1; 2; 3; 4; 255; 255; 255; 255; 255; 255; 255; 255; 255; 255; 255; 255; 255; 255; 255; 255; 255; 255; 255; 255; 255; 255; 255; 255; 255; 255; 255; 255; 255; 255; 255; 255; 255; 255; 255; 255; 255; 255; 255; 255; 255; 255; 255; 255; 255; 255; 255; 255; 255; 255; 255; 255; 255; 255; 255; 255; 255; 255; 255; 255; 255; 255; 255; 255; 255; 255; 255; 255; 255; 255; 255; 255; 255; 255; 255; 255; 255; 255; 255; 255; 255; 255; 255; 255; 255; 255; 255; 255; 255; 255; 255; 255].
 Definition tiny_guid : bytes := [1; 0; 0; 0; 0; 171; 0; 0; 0; 0; 0; 0; 0; 0; 0; 119].
 
-Definition save_of (fx : bool) (ops : list op) : outcome bytes :=
-  edit_and_save no_codec no_codec id_bytes id_bytes no_nvar fx 8 ops tiny_image.
+Definition save_of (pinned : bool) (ops : list op) : outcome bytes :=
+  edit_and_save_gen no_codec no_codec id_bytes id_bytes no_nvar pinned 8 ops tiny_image.
 Definition files_of (img : bytes) : outcome (list node) :=
   match parse_region no_codec id_bytes no_nvar 8 img with
   | Ok (elems, _) => Ok (find_elems (SText false (guid_string tiny_guid)) elems)
   | Err e => Err e | Panic p => Panic p | Fuel => Fuel
   end.
 
-(* remove of the only file: the pinned Assemble saves the input unchanged, the file is still there *)
+(* remove of the only file: the Assemble before the repair saves the input unchanged, the file is
+   still there *)
 Theorem C03_remove_only_file_pinned_refuted :
-  exists img ops a, edit_and_save no_codec no_codec id_bytes id_bytes no_nvar false 8 ops img = Ok img /\
+  exists img ops a, edit_and_save_gen no_codec no_codec id_bytes id_bytes no_nvar true 8 ops img = Ok img /\
     ops = [ORemove false a] /\
     (exists elems pol m, parse_region no_codec id_bytes no_nvar 8 img = Ok (elems, pol) /\
                          find_elems (SText false a) elems = [m]).
@@ -230,7 +232,7 @@ Print Assumptions C03_remove_only_file_pinned_refuted.
 
 (* with the repair the file is gone and the size is kept *)
 Example ex_remove_only_file_fixed :
-  match save_of true [ORemove false (guid_string tiny_guid)] with
+  match save_of false [ORemove false (guid_string tiny_guid)] with
   | Ok out => (zlen out =? zlen tiny_image) && negb (bytes_eqb out tiny_image) &&
               match files_of out with Ok [] => true | _ => false end
   | _ => false
